@@ -23,8 +23,10 @@ static int ref_A_get_v(A const *t) { return t->get_v(); }
 static A *ref_A_add(A const *t, A const *o) { return new A(t->add(*o)); }
 //REF A::operator ==(A const *,A const *)
 static bool ref_A_eq(A const *t, A const *o) { return *t == *o; }
-//REF A::narrow(A const *,signed char,unsigned short int,long long int,unsigned long long int,bool)
-static unsigned short ref_A_narrow(A const *t, signed char a, unsigned short b, long long c, unsigned long long d, bool e) { return t->narrow(a, b, c, d, e); }
+//REF A::narrow(A const *,signed char,unsigned short int)
+static unsigned short ref_A_narrow(A const *t, signed char a, unsigned short b) { return t->narrow(a, b); }
+//REF A::widen(A const *,long long int,unsigned long long int,bool)
+static long long ref_A_widen(A const *t, long long c, unsigned long long d, bool e) { return t->widen(c, d, e); }
 //REF A::scale(A const *,double,float)
 static double ref_A_scale(A const *t, double x, float y) { return t->scale(x, y); }
 //REF A::self(A *)
@@ -32,9 +34,9 @@ static A *ref_A_self(A *t) { return &t->self(); }
 //REF A::other(A const *,A const *)
 static A const *ref_A_other(A const *t, A const *p) { return t->other(p); }
 // exported only under -promiscuous: public data members and the global trace cell
-//OPTIONAL get_g_trace() : c_fnames,c_string_fnames,c,c_string,c_fnames_fptrs,c_fnames_uniq,c_fnames_nodb,c_true_names
+//OPTIONAL get_g_trace() : c_fnames,c_string_fnames,c,c_string,c_fnames_fptrs,c_fnames_uniq,c_fnames_nodb,c_true_names,py_string_fnames,py_fnames,py
 //REF get_g_trace()
 static int ref_p_94959() { return g_trace; }
-//OPTIONAL set_g_trace(int) : c_fnames,c_string_fnames,c,c_string,c_fnames_fptrs,c_fnames_uniq,c_fnames_nodb,c_true_names
+//OPTIONAL set_g_trace(int) : c_fnames,c_string_fnames,c,c_string,c_fnames_fptrs,c_fnames_uniq,c_fnames_nodb,c_true_names,py_string_fnames,py_fnames,py
 //REF set_g_trace(int)
 static void ref_p_94877(int v) { g_trace = v; }
